@@ -5,6 +5,19 @@ HERE = os.path.dirname(os.path.dirname(os.path.abspath(__file__)))
 ALL = ["C%02d" % i for i in range(1, 21)]
 
 CHECKS = {
+ "C05": dict(
+  category="model_checking",
+  text="Sql.tla: Emit writes one Column per parameter (column type, Enum for Literal, nullable from Optional/dict, default, comment, "
+       "[PK]/[FK] markers) plus a synthetic integer id when no column is marked [PK]; Parse reads the columns back; TLC checks "
+       "ExactlyOnePK, RoundTrip and Agree (the result does not depend on the variant) on the ideal rules over interfaces of 1..2 "
+       "SQL-representable columns x 3 variants x 3 docstring styles x force_pk_id, and RoundTripOrDeviation as built. Binding: "
+       "every dumped behaviour is emitted by the real emitter of the variant, rendered, re-read and parsed by the matching real "
+       "parser; verdicts: re-parsed columns == gamma(Norm); exactly one primary_key=True in the rendered source; the real results "
+       "of the variants of one interface are equal to each other.",
+  design_ref="DESIGN.md section 4, C05",
+  note="Trusted: gamma; identifiers are drawn from names that are not primary-key candidates by name; interface-level prose is not "
+       "compared. The hybrid variant cannot be parsed back at all (listed finding), so Agree is judged between class and Table.",
+  technique="TLA+ model of column emission/parse, TLC exhaustive, every behaviour replayed through real emit -> to_code -> ast.parse -> parse"),
  "C06": dict(
   category="model_checking",
   text="JsonSchema.tla: Emit(i) is the abstract schema document (description kind, per-property type/pattern/default/description, "
